@@ -16,6 +16,8 @@
                  under which the phonon factor E/(E-1) and the Raman coefficient are non-negative (R3.raman-ase).
  Rm memo          : every memoisation construct in the functions behind this property is keyed by everything it reads.
  Rp presence      : optional numeric fields are tested with `is None` / membership, never by truthiness (0 is a value).
+ R4 no reset      : no function of elements.py / science_utils.py builds a spectrum anew (factories are for launch and design
+                    only): accumulated ASE / NLI cannot be dropped inside an element.
 """
 import ast
 
@@ -25,7 +27,7 @@ from ..poly import Rat, C, mk_atom, subst, REG, fn
 from ..vg import Evaluator, vkey, atoms_of
 from ..domains import sign, POS, NONNEG, ZERO, UNK, NEG, NONPOS
 from ..model import CannotAnalyse
-from .common import site, key, all_attr_stores
+from .common import site, key, all_attr_stores, calls_to
 
 EL = 'gnpy.core.elements'
 GAIN = {'apply_gain_db', 'apply_gain_lin'}
@@ -302,6 +304,28 @@ def r3b_raman_ase(ctx):
 
 
 
+def r4_no_reset(ctx):
+    """R4: noise accumulated upstream is never dropped inside an element: the elements (and the physics they call) never build
+    a spectrum anew - only request.propagate (launch) and the design code (reference comb) call the spectral-information
+    factories; band filtering inside elements goes through demux / mux, which carry signal, ASE and NLI of the kept
+    channels (C07-R2)"""
+    repo = ctx.repo
+    FACT = {'create_arbitrary_spectral_information', 'create_input_spectral_information', 'carriers_to_spectral_information',
+            'SpectralInformation'}
+    n = 0
+    for mod in ('gnpy.core.elements', 'gnpy.core.science_utils'):
+        m = repo.module(mod)
+        funcs = list(m.functions.values()) + [f for c in m.classes.values() for f in c.all_funcs()]
+        for f in funcs:
+            n += 1
+            hits = [c for c in calls_to(f, FACT)]
+            ctx.check('R4.no-reset', site(f, hits[0]) if hits else site(f), not hits, key(f, 'factory'),
+                      f'{f.name} builds a spectrum with {ast.unparse(hits[0].func) if hits else ""}: the ASE and NLI accumulated by the '
+                      'upstream elements are dropped (GSNR, OSNR and SNR_NLI jump up through the element); elements must filter '
+                      'with demux / mux, which keep the noise of the surviving channels')
+    ctx.need('R4.no-reset', 80)
+
+
 from ..memo import rule_for as _memo_rule
 
 RULES_MEMO = ('Rm.memo', _memo_rule('C02', 'an element would apply noise computed for another spectrum or configuration'))
@@ -311,4 +335,4 @@ from ..presence import rule_for as _presence_rule
 
 RULES_PRESENCE = ('Rp.presence', _presence_rule('C02', 'a legal zero would be read as missing'))
 
-RULES = [('R3.raman-ase', r3b_raman_ase), ('R1.effects', r1_effects), ('R2.identities', r2_identities), ('R3.sign', r3_sign), RULES_MEMO, RULES_PRESENCE]
+RULES = [('R3.raman-ase', r3b_raman_ase), ('R1.effects', r1_effects), ('R2.identities', r2_identities), ('R3.sign', r3_sign), RULES_MEMO, RULES_PRESENCE, ('R4.no-reset', r4_no_reset)]
